@@ -86,7 +86,7 @@ theorem optimized_poly_rounded_div_eq (self : FQP) (a b : List Int) :
   unfold FQP.optimized_poly_rounded_div Fqp.polyRoundedDiv
   simp only [updAt_set_add, updAt_set_sub, List.map_const']
   have key := fields_foldl_rel
-    (r := fun (g : List Int × List Int) (m : List Int × List Int) => g = (m.2, m.1))
+    (r := fun (g : List Int × List Int) (m : List Int × List Int) => g = m)
     (g₁ := fun (st : List Int × List Int) (i : Nat) =>
       let (temp, o) := st
       let q := getI temp (PyEcc.deg b + i) * primeFieldInv (getI b (PyEcc.deg b)) p
@@ -94,26 +94,26 @@ theorem optimized_poly_rounded_div_eq (self : FQP) (a b : List Int) :
       let temp := (List.range (PyEcc.deg b + 1)).foldl (fun t c => updAt t (c + i) (fun x => x - getI o c)) temp
       (temp, o))
     (g₂ := fun (st : List Int × List Int) (i : Nat) =>
-      let (o, temp) := st
+      let (temp, o) := st
       let o := updAt o i (fun x => x + getI temp (PyEcc.deg b + i) * primeFieldInv (getI b (PyEcc.deg b)) p)
       let temp := List.foldl (fun (temp : List Int) (c : Nat) =>
           let temp := updAt temp (c + i) (fun x => x - getI o c)
           temp) temp (List.range (PyEcc.deg b + 1))
-      (o, temp))
+      (temp, o))
     (l := if PyEcc.deg a < PyEcc.deg b then [] else downTo (PyEcc.deg a - PyEcc.deg b))
-    (i₁ := (a, List.replicate a.length 0)) (i₂ := (List.replicate a.length 0, a)) rfl
-    (by rintro ⟨o2, t2⟩ ⟨t1, o1⟩ i h
-        simp only [Prod.mk.injEq] at h
-        obtain ⟨rfl, rfl⟩ := h
+    (i₁ := (a, List.replicate a.length 0)) (i₂ := (a, List.replicate a.length 0)) rfl
+    (by rintro ⟨t2, o2⟩ ⟨t1, o1⟩ i h
+        cases h
         rfl)
-  have k1 := congrArg Prod.fst key
-  simp only at k1
+  have k1 : Prod.snd _ = Prod.snd _ := congrArg Prod.snd key
   exact congrArg (fun o => List.map (fun x => x % (p : Int)) (List.take (PyEcc.deg o + 1) o)) k1
 
 /-- the `while deg(low)` loop generated from optimized `FQP.inv` computes the model's `invLoopP .opt` (the generated
-    state is `(high, hm, lm, low)`, the model returns `(lm, low)`) -/
+    state lists the variables in the order in which the method first binds them: `(lm, hm, low, high)`; the model returns
+    `(lm, low)`) -/
 theorem inv_loop_eq (a : Fqp .opt p mc) : ∀ (f : Nat) (lm low hm high : List Int),
-    (FQP.inv_loop0 p mc (obj a) f (high, hm, lm, low)).2.2 = Fqp.invLoopP .opt p mc.length f lm low hm high := by
+    (fun (s : List Int × List Int × List Int × List Int) => (s.1, s.2.2.1)) (FQP.inv_loop0 p mc (obj a) f (lm, hm, low, high)) =
+      Fqp.invLoopP .opt p mc.length f lm low hm high := by
   intro f
   induction f with
   | zero => intro lm low hm high; rfl
@@ -124,23 +124,22 @@ theorem inv_loop_eq (a : Fqp .opt p mc) : ∀ (f : Nat) (lm low hm high : List I
     · rw [if_pos hdeg, if_pos hdeg]
       have hd : (obj a).degree = mc.length := rfl
       simp only [optimized_poly_rounded_div_eq, hd]
-      -- G: the generated double loop on `(new, nm)`;  M: the model's on `(nm, new)`
-      have key : ∀ (G M : List Int × List Int), G = (M.2, M.1) →
-          (FQP.inv_loop0 p mc (obj a) f (low, lm, List.map (fun x => x % (p : Int)) G.2,
-            List.map (fun x => x % (p : Int)) G.1)).2.2 =
+      -- G: the generated double loop on `(nm, new)`;  M: the model's
+      have key : ∀ (G M : List Int × List Int), G = M →
+          (fun (s : List Int × List Int × List Int × List Int) => (s.1, s.2.2.1))
+            (FQP.inv_loop0 p mc (obj a) f (List.map (fun x => x % (p : Int)) G.1, lm,
+              List.map (fun x => x % (p : Int)) G.2, low)) =
           Fqp.invLoopP .opt p mc.length f (List.map (fun x => x % (p : Int)) M.1)
             (List.map (fun x => x % (p : Int)) M.2) lm low := by
         rintro _ M rfl
         exact ih _ _ _ _
       apply key
-      refine fields_foldl_rel (r := fun (g : List Int × List Int) (m : List Int × List Int) => g = (m.2, m.1)) rfl ?_
-      rintro ⟨n2, m2⟩ ⟨m1, n1⟩ i h
-      simp only [Prod.mk.injEq] at h
-      obtain ⟨rfl, rfl⟩ := h
-      refine fields_foldl_rel (r := fun (g : List Int × List Int) (m : List Int × List Int) => g = (m.2, m.1)) rfl ?_
-      rintro ⟨n2, m2⟩ ⟨m1, n1⟩ j h
-      simp only [Prod.mk.injEq] at h
-      obtain ⟨rfl, rfl⟩ := h
+      refine fields_foldl_rel (r := fun (g : List Int × List Int) (m : List Int × List Int) => g = m) rfl ?_
+      rintro ⟨n2, m2⟩ ⟨n1, m1⟩ i h
+      cases h
+      refine fields_foldl_rel (r := fun (g : List Int × List Int) (m : List Int × List Int) => g = m) rfl ?_
+      rintro ⟨n2, m2⟩ ⟨n1, m1⟩ j h
+      cases h
       rfl
     · rw [if_neg hdeg, if_neg hdeg]
 
@@ -183,11 +182,12 @@ theorem inv_eq (a : Fqp .opt p mc) : FQP.inv p mc (obj a) = .ok (obj (Fqp.inv a)
   unfold FQP.inv Fqp.inv
   simp only [hd]
   generalize hs : FQP.inv_loop0 p mc (obj a) (4 * mc.length + 4)
-    ((obj a).modulus_coeffs ++ [1], List.replicate (mc.length + 1) 0, [1] ++ List.replicate mc.length 0, (obj a).coeffs ++ [0]) = s
-  obtain ⟨high, hm, lm, low⟩ := s
+    ([1] ++ List.replicate mc.length 0, List.replicate (mc.length + 1) 0, (obj a).coeffs ++ [0], (obj a).modulus_coeffs ++ [1]) = s
+  obtain ⟨lm, hm, low, high⟩ := s
   have hloop' : (lm, low) = Fqp.invLoopP .opt p mc.length (4 * mc.length + 4) (1 :: List.replicate mc.length 0)
       (a.coeffs ++ [0]) (List.replicate (mc.length + 1) 0) (mc ++ [1]) := by
-    rw [← hloop]; exact congrArg (fun s => s.2.2) hs.symm
+    rw [← hloop]
+    exact congrArg (fun (s : List Int × List Int × List Int × List Int) => (s.1, s.2.2.1)) hs.symm
   rw [← hloop'] at hl ⊢
   simp only at hl ⊢
   rw [init_ints_eq, if_neg (by simp [hl])]
